@@ -17,6 +17,7 @@ CONSTANTS
   MaxFaults = 4
   MaxStops = 1
   MaxExpire = 1
+  IgnoredStarts = FALSE
   LateRace = FALSE
 INVARIANTS DeliveredAscending Outcome AncestorCommon NeverBeyondTarget PeerConservation ConnQueueSane HashReqSane NoActorBlock
 CHECK_DEADLOCK FALSE
